@@ -120,6 +120,27 @@ def run(prog, rep, tier):
         r1.ok("insert/remove key scheme: %s" % sorted(schemes["insert"]))
     uses_get = any(n.split("::")[-1] in ("get", "get_mut") for _, _, _, n in tcalls)
     if uses_get:
+        # exact-key lookup of covering prefixes: the key for length L is the route's address with the bits beyond L cleared,
+        # i.e. each byte is AND-ed with a mask made of *leading* ones (0xff << (8 - bits)); anything else looks up a sibling
+        masks = []
+        for b in bodies:
+            for bi in sorted(b.live):
+                for s_ in b.blocks[bi]["s"]:
+                    rv = s_.get("rv")
+                    if rv and rv["r"] == "bin" and rv["op"] in ("Shl", "Shr", "ShlUnchecked", "ShrUnchecked"):
+                        a = rv["a"]
+                        if (a.get("k") or {}).get("v") == 255:
+                            masks.append((b, bi, rv["op"]))
+        ands = sum(1 for b in bodies for bi in b.live for s_ in b.blocks[bi]["s"] if s_.get("rv") and s_["rv"]["r"] == "bin" and s_["rv"]["op"] == "BitAnd")
+        if not masks or not ands:
+            r1.unanalysable("validate: the masking of the lookup key (byte &= 0xff << (8 - bits)) was not recognised", fv.loc())
+        elif all(op.startswith("Shl") for _, _, op in masks):
+            r1.ok("validate: lookup keys keep the leading bits of each byte (0xff << ..)")
+        else:
+            bb, bbi, op = [m for m in masks if not m[2].startswith("Shl")][0]
+            r1.fail(fv.name, "key-mask-direction", "the lookup key is masked with 0xff >> ..: that keeps the trailing bits of the byte, so prefix lengths that are not a multiple of 8 look up the wrong prefix "
+                    "(covering VRPs missed, sibling prefixes matched)", bb.loc(bbi))
+    if uses_get:
         if schemes["validate"] >= schemes["insert"]:
             r1.ok("validate builds exact keys with the insert/remove scheme")
         else:
